@@ -150,6 +150,8 @@ package goja
 // and references opened inside a frame are closed BEFORE the frame is popped (so that an exception
 // thrown by an iterator's return() is still seen by that frame's catch), and a finally is entered
 // through a latched frame.
+// The generator record is embedded in its owner and wired up once, when the owner is initialised.
+//@ constructor-of generator (*asyncRunner).start (*generatorObject).init
 //@ stable generator.vm
 //@ func (*generator).enterNextFinallyFrame
 //@   props C08
